@@ -58,6 +58,11 @@ def keys_for(rng: Rng, alg: str, enc: str, crv: str | None = None, params=None, 
     if alg.endswith("GCMKW"):
         return K.make_oct(rng, int(alg[1:4]) // 8, params), None
     if alg in rjwe.PBES2:
+        if rng.chance(0.4):
+            # passwords are text: the octets are exactly the UTF-8 the parties agreed on, whatever Unicode form that is
+            pw = rng.pick(["pa\u0308sswo\u0308rd", "p\u00e4ssw\u00f6rd", "\uff46\uff55\uff4c\uff4cwidth", "no\u00a0break space", "\u2116 5 \u212bngstr\u00f6m",
+                           "\u1112\u1161\u11ab\uae00", "caf\u00e9", "cafe\u0301", "trailing newline\n", "Tr\u00e8s secret", "\ufb01ne ligature"])
+            return RKey("oct", k=pw.encode("utf-8"), params=dict(params or {})), None
         return K.make_oct(rng, rng.pick([1, 8, 20, 40, 64]), params), None
     crv = crv or rng.pick(CURVES)
     if crv in rk.EC_CURVES:
@@ -109,6 +114,24 @@ def record(ledger: Ledger, ser, plaintext: bytes, keys: list[RKey]) -> None:
 # minting with joserfc
 # ---------------------------------------------------------------------------
 
+_FALLBACK = {}
+
+
+def _fallback_key(like: RKey):
+    """an unrelated key of the kind of `like` (fixed material)"""
+    kind = (like.kty, like.crv, len(like.k) if like.kty == "oct" else None)
+    if kind not in _FALLBACK:
+        r = Rng("fallback-key/%s/%s/%s" % kind)
+        if like.kty == "oct":
+            k = K.make_oct(r, len(like.k), {"kid": "fallback"})
+        elif like.kty == "RSA":
+            k = K.make_rsa(r, 2048, {"kid": "fallback"}, avoid=like)
+        else:
+            k = K.make_kind(r, like.kty, like.crv, {"kid": "fallback"})
+        _FALLBACK[kind] = K.to_jose(k if k.kty == "oct" else k.public(), private=k.kty == "oct")
+    return _FALLBACK[kind]
+
+
 def mint_jose(form: str, protected: dict, plaintext: bytes, rcpts: list, unprotected=None, aad=None,
               algorithms=None, sender_arg=None, key_arg=None, attach_keys: bool = True):
     """rcpts: list of (recipient header dict|None, RKey).  Returns (serialisation, objects)"""
@@ -129,6 +152,9 @@ def mint_jose(form: str, protected: dict, plaintext: bytes, rcpts: list, unprote
                 obj.add_recipient(copy.deepcopy(hdr), K.to_jose(rkey, private=rkey.kty == "oct"))
             else:
                 obj.add_recipient(copy.deepcopy(hdr))
+        if attach_keys and key_arg is None and len(plaintext) % 3 == 0:
+            # the application always passes its default key as well; recipients that were given their own key keep it
+            key_arg = _fallback_key(rcpts[0][1])
         return jwe.encrypt_json(obj, key_arg, algorithms=algorithms, sender_key=sender_arg)
 
 
